@@ -477,10 +477,11 @@ def spec_map(flavour, method, kinds):
     def setup(spec):
         c = ctx()
         REG[0] = Registry()
-        kids = [make_child(k, 'c%d' % i) for i, k in enumerate(kinds)]
+        kids = [make_child(k, 'c%d' % i) if k != 'MinusOne' else None for i, k in enumerate(kinds)]
         expr = node_cls()
         if base in ('map_sum', 'map_product'):
-            expr.children = tuple(kids)
+            # 'MinusOne': the python int -1 as first factor - the node shape Product((-1, x)) that denotes -x
+            expr.children = tuple(-1 if k is None else k for k in kids)
         elif base == 'map_quotient':
             expr.numerator, expr.denominator = kids
         else:
@@ -500,9 +501,11 @@ def spec_map(flavour, method, kinds):
             return [('returns-text', z3.BoolVal(False))]
         p = Parser(text, REG[0])
         v = p.parse()
-        d = [k.den for k in kids]
+        d = [z3.IntVal(-1) if k is None else k.den for k in kids]
         want = {'map_sum': d[0] + d[1], 'map_product': MUL(d[0], d[1]), 'map_quotient': TDIV(d[0], d[1]),
                 'map_power': POW(d[0], d[1])}[base]
+        if kids[0] is None:
+            want = -d[1]
         lvl = {'map_sum': PREC_SUM, 'map_product': PREC_PRODUCT, 'map_quotient': PREC_PRODUCT, 'map_power': PREC_POWER}[base]
         cl = [('binds:' + why, g) for why, g in p.obl]
         cl.append(('text-denotes-the-node', v.den == want))
@@ -553,6 +556,9 @@ def specs(tier='quick'):
                                                                ('Product', 'Power'), ('NegProduct', 'Product')):
                     continue
                 out.append(spec_map(fl, method, (a, b)))
+            if method == 'map_product':
+                for b in CHILD_KINDS:
+                    out.append(spec_map(fl, method, ('MinusOne', b)))
     _SPECS[tier] = out
     return out
 
@@ -568,7 +574,7 @@ META = {
                   'quotient, power, parenthesised variants) and a symbolic enclosing precedence: the returned text, parsed '
                   'with the Fortran expression grammar, must denote the node (tdiv and pow uninterpreted, only associativity '
                   'of + and * admitted), every child text must bind tightly enough for its position, and the text must be '
-                  'parenthesised whenever the context binds tighter (the contract the recursive calls rely on). Summands of map_sum include negated leaves, negated sums and negated quotients; the operand of a sign must bind tighter than + and -.',
+                  'parenthesised whenever the context binds tighter (the contract the recursive calls rely on). Summands of map_sum include negated leaves, negated sums and negated quotients; map_product is also run on the node shape Product((-1, x)) that denotes -x; the operand of a sign must bind tighter than + and -.',
     'level_note': 'Known finding: a quotient as a non-first factor of a product is printed without parentheses (a*b / c). '
                   'Bounded and stated: nodes have two children (n-ary sums / products are printed by the same join over the '
                   'children); a sign directly after an operator (a*-b) is accepted as gfortran does. Trusted: pyvc engine; the '
